@@ -20,9 +20,10 @@
      the parameter [rl] (instantiated by [run_logic fn_sem]) expresses; with a
      shared object, fn_sem would need the cluster state as an argument and the
      result could depend on the schedule.
-   A sub-workflow evaluation is atomic here ([rl (LSub …)] is its sequential
-   run); its own steps are scheduled by the same semantics one level down, to
-   which the theorems apply again.  Proof-free: proofs/Sched_proofs.v. *)
+   A sub-workflow evaluation is one atomic completion at its parent's level;
+   its own steps are scheduled by the same semantics one level down
+   (Sched_proofs.nested_schedules_thm composes the levels: all definitions are
+   parametric in the evaluator [rl]).  Proof-free: proofs/Sched_proofs.v. *)
 From Koreo Require Export Workflow.
 Local Open Scope list_scope.
 
